@@ -46,9 +46,14 @@ package engine
 //@   requires e != nil && !onActor
 //@   requires callbacks: expr != nil && onupdate != nil && onclose != nil
 //@   assigns fresh-only
-//@   modifies sent
+//@   modifies sent, regid, regcancel
 //@   ensures sent == bump(old(sent), e.addWatcher)
 //@   ensures result != nil
+// observer identity (x-c17): the function handed back IS the cancel function of the watcher just registered, and
+// the id it will send on removeWatcher is that watcher's own id (not, say, the most recently issued one). The
+// watcher side of the same fact (v.cancel's id == v.id) is part of the channel invariant validWatcher,
+// obligation pre@effect.send.watcher#0.wellformed.
+//@   ensures[C17] registered: regcancel == result && regid == captured("(*engine.Engine).Observe$1", "id", result)
 
 // the cancel function handed to the client (and stored in watcher.cancel)
 //@ func (*Engine).Observe$1()
@@ -56,7 +61,9 @@ package engine
 //@   requires captured_e: e != nil
 //@   requires notActor: !onActor
 //@   assigns nothing
-//@   modifies sent
+//@   modifies sent, sentid
+//@   ensures[C17] onesend: sent == bump(old(sent), e.removeWatcher)
+//@   ensures[C17] ownid: sentid[e.removeWatcher] == id
 
 // ---- watcher ------------------------------------------------------------------------------------
 
@@ -81,8 +88,9 @@ package engine
 //@   requires watchers != nil && forall k: Int :: has(watchers, k) ==> validWatcher(watchers[k])
 //@   assigns fresh-only
 //@   modifies watchers, map[uint64]*engine.watcher
-//@   ensures watchers != nil && len(watchers) == 0 && forall k: Int :: !has(watchers, k)
+//@   ensures[C17] reset: watchers != nil && len(watchers) == 0 && forall k: Int :: !has(watchers, k)
 //@   loop 0 invariant true
+//@   loop 0 ensures[C17] closedeach: lastcall("(*engine.watcher).close", 0) == w
 
 // ---- the actor goroutine ----------------------------------------------------------------------------
 // Verified as a sequential program: loop 1 is `for { select {...} }`; an invariant over the
@@ -96,10 +104,23 @@ package engine
 //@   loop 1 invariant wmap: watchers != nil
 //@   loop 1 invariant valid: forall k: Int :: has(watchers, k) ==> validWatcher(watchers[k])
 //@   loop 1 invariant actor: onActor && e != nil
+//@   loop 1 invariant keyed: forall k: Int :: has(watchers, k) ==> watchers[k].id == k
 //@   loop 2 invariant valid2: watchers != nil && onActor && forall k: Int :: has(watchers, k) ==> validWatcher(watchers[k])
+//@   loop 2 invariant keyed2: forall k: Int :: has(watchers, k) ==> watchers[k].id == k
+//@   loop 2 invariant same2: forall k: Int :: has(watchers, k) == prev(has(watchers, k), 1) && watchers[k] == prev(watchers[k], 1)
 //@   loop 2 invariant sent2: sent == bump(prev(sent, 1), req.failed)
 //@   loop 2 ensures[C17] notified: lastcall("(*engine.watcher).update", 0) == w && lastcall("(*engine.watcher).update", 2) == fnresult("(rel.Scope).With", prev(global, 1), Root, value)
 //@   loop 1 ensures[C17] answered: $sel == 2 ==> sent == bump(prev(sent), req.failed)
 //@   loop 1 ensures[C17] silent: $sel != 2 ==> sent == prev(sent)
 //@   loop 1 ensures[C17] kept: $sel == 2 && err != nil ==> global == prev(global)
 //@   loop 1 ensures[C17] installed: $sel == 2 && err == nil ==> global == fnresult("(rel.Scope).With", prev(global), Root, value)
+// who is registered (x-c17): each arm changes the set of live observers exactly as the property says.
+//   addWatcher: w is registered under its own id, nobody else is touched;
+//   removeWatcher(id): exactly the observer registered under id is removed (cancelling one observer removes that one);
+//   updateDB / stop: nobody is added or removed;
+//   hangup: no (closed) watcher remains registered, so a later update cannot notify or close it again.
+//@   loop 1 ensures[C17] added: $sel == 0 ==> has(watchers, w.id) && watchers[w.id] == w && forall k: Int :: k != w.id ==> has(watchers, k) == prev(has(watchers, k)) && watchers[k] == prev(watchers[k])
+//@   loop 1 ensures[C17] removed: $sel == 1 ==> forall k: Int :: has(watchers, k) == (prev(has(watchers, k)) && k != id) && (has(watchers, k) ==> watchers[k] == prev(watchers[k]))
+//@   loop 1 ensures[C17] closedit: $sel == 1 ==> let i : id in (prev(has(watchers, i)) ==> lastcall("(*engine.watcher).close", 0) == prev(watchers[i]))
+//@   loop 1 ensures[C17] samewatchers: $sel == 2 ==> forall k: Int :: has(watchers, k) == prev(has(watchers, k)) && watchers[k] == prev(watchers[k])
+//@   loop 1 ensures[C17] hungup: $sel == 4 ==> len(watchers) == 0 && forall k: Int :: !has(watchers, k)
